@@ -1171,6 +1171,9 @@ impl FseDecoder {
         if original_size == 0 {
             return Ok(Vec::new());
         }
+        if original_size > crate::entropy::MAX_DECOMPRESSED_SIZE {
+            return Err(ZiporaError::invalid_data("Declared size exceeds the decompressed size limit"));
+        }
         
         // Read table log (or uncompressed marker)
         if pos >= data.len() {
@@ -1295,6 +1298,9 @@ impl FseDecoder {
             
             let block_data = &data[pos..pos + block_size];
             let decompressed = self.decompress_single(block_data)?;
+            if decompressed.len() > crate::entropy::MAX_DECOMPRESSED_SIZE - output.len() {
+                return Err(ZiporaError::invalid_data("Blocks exceed the decompressed size limit"));
+            }
             output.extend_from_slice(&decompressed);
             pos += block_size;
         }
